@@ -531,7 +531,8 @@ def run(ctx: common.Ctx):
                                  {"input": m["input"], "lang": m["lang"], "options": m["extra"], "variant": m["variant"], "file": rel, "first_differing_line": d})
                         break
     ctx.extra["root_first_lines_checked"] = first_lines_checked
-    shared.run_histories(ctx, model)
+    shared.run_histories(ctx, model, {"kind": "per-type-output-depends-on-company-order-or-history", "lang": "py", "file_kind": "type", "where": "pickled-model-literal",
+                                      "level": "history", "templates": "builtin"})
     ctx.sample({"paired_jobs": len(jobs), "inputs": [i[0] for i in inputs]})
 
 
